@@ -432,36 +432,22 @@ type c06Ret struct {
 // with the error values they may carry on those paths.
 func c06ReturnsFrom(fn *ssa.Function, e Edge, ct *cut) []c06Ret {
 	idx := ErrResultIndex(fn.Signature)
-	type state struct{ b, pred *ssa.BasicBlock }
-	seen := map[state]bool{}
 	var out []c06Ret
-	var walk func(b, pred *ssa.BasicBlock)
-	walk = func(b, pred *ssa.BasicBlock) {
-		if seen[state{b, pred}] {
+	seen := map[*ssa.Return]map[*ssa.BasicBlock]bool{}
+	c05ReachF(e.To, 0, e.From, nil, ct, c05EdgeFacts(e), func(r *ssa.Return, pred *ssa.BasicBlock) {
+		if seen[r] == nil {
+			seen[r] = map[*ssa.BasicBlock]bool{}
+		}
+		if seen[r][pred] {
 			return
 		}
-		seen[state{b, pred}] = true
-		for _, in := range b.Instrs {
-			if ct != nil && ct.instrs[in] {
-				return
-			}
-			if r, ok := in.(*ssa.Return); ok {
-				var vals []ssa.Value
-				if idx >= 0 {
-					vals = resolveAt(r.Results[idx], b, pred, r, map[ssa.Value]bool{})
-				}
-				out = append(out, c06Ret{r, vals})
-				return
-			}
+		seen[r][pred] = true
+		var vals []ssa.Value
+		if idx >= 0 {
+			vals = resolveAt(r.Results[idx], r.Block(), pred, r, map[ssa.Value]bool{})
 		}
-		for _, s := range b.Succs {
-			if ct != nil && ct.edges[Edge{b, s}] {
-				continue
-			}
-			walk(s, b)
-		}
-	}
-	walk(e.To, e.From)
+		out = append(out, c06Ret{r, vals})
+	})
 	return out
 }
 
@@ -854,7 +840,7 @@ func c06R2Tag(c *Ctx) {
 			for lv := e; lv.Parent != nil && lv.Call != nil; lv = lv.Parent {
 				if ErrOf(lv.Call) == nil {
 					ok2, why = false, "the verdict of "+FnName(lv.Fn)+" is discarded"
-				} else if r := ErrFlow(lv.Call, ErrFlowOpts{}); !r.OK {
+				} else if r := c05ErrFlow(lv.Call, ErrFlowOpts{}); !r.OK {
 					ok2, why = false, r.Detail
 				}
 			}
@@ -909,7 +895,7 @@ func c06R2Resolve(c *Ctx) {
 				return n == "(~/content.Resolver).Resolve" || n == "(*~/internal/resolver.Memory).Resolve"
 			}) {
 				n++
-				r := ErrFlow(call, ErrFlowOpts{Tolerated: x.tol})
+				r := c05ErrFlow(call, ErrFlowOpts{Tolerated: x.tol})
 				okTol := true
 				detail := r.How + r.Detail
 				if r.OK && len(x.tol) > 0 {
@@ -930,7 +916,7 @@ func c06R2Resolve(c *Ctx) {
 				for lv := e; lv.Parent != nil && lv.Call != nil; lv = lv.Parent {
 					if ErrOf(lv.Call) == nil {
 						okTol, detail = false, "the result of "+FnName(lv.Fn)+" is discarded"
-					} else if rr := ErrFlow(lv.Call, ErrFlowOpts{}); !rr.OK {
+					} else if rr := c05ErrFlow(lv.Call, ErrFlowOpts{}); !rr.OK {
 						okTol, detail = false, rr.Detail
 					}
 				}
